@@ -86,7 +86,7 @@ Init ==
             next  |-> Cardinality(Conts) + 1 ]
   /\ ab = [ Abs!InitState EXCEPT
               !.cell = [c \in Conts |-> c], !.known = Conts, !.cnt = [o \in Conts |-> 1],
-              !.parent = [o \in Conts |-> -1] ]
+              !.parent = [o \in Conts |-> -1], !.ever = [c \in Conts |-> {c}] ]
   /\ err = ""
   /\ solo = 0
   /\ hist = <<>>
